@@ -44,7 +44,7 @@ def gen_case(streams, tier):
                            max_mul_width=5, mem_wide_aw=0.0, mem_aw=(1, 4), rom_aw_max=3,
                            regs=(0, 2), mems=(0, 1))
     script = gen.gen_script(g, cfg)
-    script, stage = gen.maybe_stage(g, script, 0.2, ['sim', 'fast', 'compiled', 'export', 'analysis', 'optimized_copy', 'copy'])
+    script, stage = gen.maybe_stage(g, script, 0.2, ['sim', 'fast', 'compiled', 'export', 'analysis', 'optimized_copy', 'copy', 'reset'])
     ncyc = streams['inputs'].randint(1, 10)
     with_compiled = g.random() < (0.3 if tier == 'quick' else 0.4)
     holes = any(m.get('rom') and m['rom'].get('holes') for m in script['mems'])
@@ -73,6 +73,7 @@ def gen_case(streams, tier):
         'sched': world.gen_sched(streams),
         'state_seed': g.getrandbits(32),
         'stage': stage,
+        'prior_default': (1 if not init.get('default') else 0) if g.random() < 0.25 else None,
     }
     one_bit = [w['n'] for w in script['wires'] if w['w'] == 1 and w['k'] in 'WRI']
     case['assert_wire'] = None
@@ -157,6 +158,16 @@ def run(case, res):
     ref = RefSim(nl, dict(init['regs']),
                  {k: {int(a): v for a, v in d.items()} for k, d in init['mems'].items()},
                  init.get('default', 0))
+    if case.get('prior_default') is not None:
+        # somebody simulated this very block before, with another default_value
+        try:
+            for cls in (pyrtl.FastSimulation, pyrtl.Simulation):
+                s0 = cls(tracer=pyrtl.SimulationTrace('all', block=live.block), block=live.block,
+                         default_value=case['prior_default'])
+                s0.step({w.name: 0 for w in live.block.wirevector_subset(pyrtl.Input)})
+            res.faults.hit('earlier_instance_with_other_default_value')
+        except (pyrtl.PyrtlError, pyrtl.PyrtlInternalError, common.PlantedAssertion):
+            res.probes.hit('prior_instance_refused')
     reps = []
     for lab in case['labels']:
         try:
